@@ -27,4 +27,4 @@ EXPLORE = {'real': (rp.c08_cases(), rp.execute_c08)}
 
 def run(ctx):
     ctx.explore('real', rp.c08_cases(), rp.execute_c08, n=ctx.pick(3, 40),
-                shrink_budget=6, reexecute_confirm=0)
+                shrink_budget=6, reexecute_confirm=2)
